@@ -69,6 +69,13 @@ CHECKS = {
     "C20": ("remote", "6 C20", "RemoteHandle.tla (encode/decode of [ty, owned, addr]) model-checked; every (type parameter, owned/borrowed, address) case "
             "replayed into the real Remote<T>; encoding, decoding of the prescribed literal and schema judged by TLC",
             "TLA+ spec + TLC (exhaustive small scope), replay into the real type, trace validation"),
+    "C12": ("multitest", "6 C12", "Multitest.tla (abstract chain: store / instantiate with options / exec / query / sudo / migrate) simulated by TLC into "
+            "operation histories; each history applied through the generated proxies to one chain and as raw JSON to an identically seeded twin; "
+            "after every operation views and results of both chains are judged by TLC against each other and against the machine",
+            "TLA+ spec + TLC simulation, twin-chain replay, trace validation (Trace_Multitest)"),
+    "C16": ("routing", "6 C16", "query handlers with two response types (a quarter via resp= and an aliased result); response_schemas() of every part and "
+            "of the contract-level message compared by TLC with the specification's table, any-of arity with the number of parts",
+            "TLA+ spec + TLC, compiled corpus, trace validation of Schemas events"),
 }
 
 
@@ -106,7 +113,7 @@ def main():
         },
         "engines": [
             {"name": "routing", "path": "spec/Runtime.tla, spec/MC_Routing.tla, spec/Trace_Routing.tla, harness/gen/routing.py, harness/rrt",
-             "serves_properties": ["C01", "C02", "C03", "C04", "C05"],
+             "serves_properties": ["C01", "C02", "C03", "C04", "C05", "C10", "C12", "C16"],
              "kind_free_text": "TLC bounded model + generated corpus compiled against /repo + TLC trace validation"},
             {"name": "static", "path": "spec/Static.tla, spec/MC_Static.tla, spec/Trace_Static.tla, harness/gen/static.py, harness/inproc/harness.rs",
              "serves_properties": ["C06", "C13", "C15", "C17"],
